@@ -23,12 +23,13 @@ def sh(cmd, cwd=None, timeout=1800):
 
 
 def main():
-    pid = sys.argv[1]
+    sid = sys.argv[1]                       # seed id: C07 or C07b (second, third .. independent change for the same property)
+    pid = sid[:3]
     also = []
     if "--also" in sys.argv:
         also = sys.argv[sys.argv.index("--also") + 1].split(",")
-    num = pid[1:]
-    src = Path(f"/tmp/seed_out/{pid}")
+    num = sid[1:]
+    src = Path(f"/tmp/seed_out/{sid}")
     wt = Path(f"/tmp/seed_c{num}")
     meta = json.loads((src / "meta.json").read_text())
     demo = [p for p in src.glob("demo_*") if p.suffix == ".py"][0]
@@ -51,7 +52,7 @@ def main():
     #     `git -C /repo apply`, run, `git -C /repo checkout -- .`
     patch = src / "patch.diff"
     in_repo = "--in-repo" in sys.argv
-    sv = Path(f"/tmp/sv_{pid}")
+    sv = Path(f"/tmp/sv_{sid}")
     if in_repo:
         target, env = Path("/repo"), ""
     else:
@@ -93,13 +94,13 @@ def main():
         res["detected"] = results.get(pid, {}).get("exit") == 1
         res["detected_with_failing_input"] = any(not v["no_failing_input"] for v in results.get(pid, {}).get("violations", []))
     # (3) store
-    dst = VERIF / "seeded" / pid
+    dst = VERIF / "seeded" / sid
     dst.mkdir(parents=True, exist_ok=True)
     shutil.copy(patch, dst / "patch.diff")
     shutil.copy(demo, dst / demo.name)
     meta["verification"] = res
     meta["what_was_run"] = [f"cd {wt} && /venv/bin/python -m pytest -q -p no:cacheprovider --timeout=900", f"cd {wt} && {demo_cmd}  (with and without the change)",
-                            f"git -C /repo apply seeded/{pid}/patch.diff && ./check {pid} --tier quick && git -C /repo checkout -- ."]
+                            f"git -C /repo apply seeded/{sid}/patch.diff && ./check {pid} --tier quick && git -C /repo checkout -- ."]
     (dst / "meta.json").write_text(json.dumps(meta, indent=1))
     print(json.dumps({k: res[k] for k in ("confirmed", "suite_with_change", "demo_with_change_exit", "demo_without_change_exit") if k in res}))
     oc = res.get("our_check")
